@@ -42,7 +42,11 @@ STUBS = {
     "killed_after_partial_output": "#!/bin/sh\nhead -c 300\ncat >/dev/null\nkill -9 $$\n",
     "exit1_after_partial_output": "#!/bin/sh\nhead -c 300\ncat >/dev/null\nexit 1\n",
     "killed_partial_without_reading_all": "#!/bin/sh\nhead -c 300\nkill -9 $$\n",
+    # exits before reading (all of) its input, having echoed the first 4 KiB, with status 0: for inputs larger than the
+    # pipe buffer the write fails; the truncated echo must not be taken for the formatted program
+    "exit0_partial_without_reading_all": "#!/bin/sh\nhead -c 4096\nexit 0\n",
 }
+ONLY_BIG = {"exit0_partial_without_reading_all"}     # for small inputs the whole input fits the pipe: the stub is then a lying formatter, outside the property
 # model outcome per fault: (constructor term for small output, for big output), expected use_formatted
 MODEL = {
     "real": ("Ran WOk Exit0 true false",) * 2,
@@ -59,6 +63,7 @@ MODEL = {
     "killed_after_partial_output": ("Ran WOk Signal true false",) * 2,
     "exit1_after_partial_output": ("Ran WOk ExitN true false",) * 2,
     "killed_partial_without_reading_all": ("Ran WOk Signal true false", "Ran WErr Signal true false"),
+    "exit0_partial_without_reading_all": ("Ran WOk Exit0 true false", "Ran WErr Exit0 true false"),
 }
 
 
@@ -132,6 +137,9 @@ def run(tier, seed, replay):
                 broken.append(payload)
                 continue
             r, b = results[i], base[i]
+            if fault in ONLY_BIG and len(b.get("text") or "") <= 120000:
+                evals -= 1
+                continue
             unformatted_len = None
             if r.get("result") != "ok":
                 payload["what"] = "call did not return Ok: %s %s" % (r.get("result"), (r.get("panic_msg") or r.get("err")))
